@@ -15,23 +15,23 @@ import json, os, random, re, subprocess, sys, time, hashlib
 WT = "/tmp/mt/wt"
 VERIF = os.path.dirname(os.path.dirname(os.path.abspath(__file__)))
 CHECKS = {
-    "src/key/tree.rs": ["C01", "C06", "C02", "C11", "C20", "C07", "C12", "C19", "C18", "C10"],
-    "src/key/pool.rs": ["C11", "C02", "C01", "C07", "C19", "C10"],
-    "src/key/node.rs": ["C01", "C06", "C02", "C07", "C20", "C10"],
-    "src/key/array.rs": ["C07", "C19", "C18", "C10"],
-    "src/key/list.rs": ["C13", "C20", "C12", "C18", "C10"],
-    "src/map/tree.rs": ["C04", "C08", "C02", "C11", "C17", "C12", "C18", "C10"],
-    "src/map/pool.rs": ["C11", "C04", "C17", "C02", "C10"],
-    "src/map/list.rs": ["C13", "C12", "C18", "C10"],
-    "src/set/tree.rs": ["C05", "C09", "C08", "C02", "C11", "C17", "C12", "C18", "C10"],
-    "src/set/pool.rs": ["C11", "C05", "C17", "C02", "C10"],
-    "src/set/list.rs": ["C13", "C12", "C18", "C10"],
-    "src/seg/tree.rs": ["C03", "C16", "C15", "C12", "C14", "C18", "C10"],
-    "src/seg/chunk.rs": ["C03", "C16", "C15", "C12", "C10"],
-    "src/seg/heap.rs": ["C15", "C03", "C16", "C14", "C10"],
-    "src/seg/layout.rs": ["C14", "C15", "C03", "C10"],
-    "src/seg/bit.rs": ["C15", "C03", "C10"],
-    "src/lib.rs": ["C01", "C13", "C03", "C07"],
+    "src/key/tree.rs": ["C01", "C06", "C02", "C20", "C11"],
+    "src/key/pool.rs": ["C11", "C02", "C01"],
+    "src/key/node.rs": ["C01", "C06", "C02", "C20"],
+    "src/key/array.rs": ["C07", "C19", "C10"],
+    "src/key/list.rs": ["C13", "C20", "C12"],
+    "src/map/tree.rs": ["C04", "C08", "C02", "C11", "C17"],
+    "src/map/pool.rs": ["C11", "C04", "C17"],
+    "src/map/list.rs": ["C13", "C12"],
+    "src/set/tree.rs": ["C05", "C09", "C08", "C02", "C11"],
+    "src/set/pool.rs": ["C11", "C05", "C17"],
+    "src/set/list.rs": ["C13", "C12"],
+    "src/seg/tree.rs": ["C03", "C16", "C15", "C12"],
+    "src/seg/chunk.rs": ["C03", "C16", "C15"],
+    "src/seg/heap.rs": ["C15", "C03", "C14"],
+    "src/seg/layout.rs": ["C14", "C15", "C03"],
+    "src/seg/bit.rs": ["C15", "C03"],
+    "src/lib.rs": ["C01", "C13", "C03"],
 }
 
 OPS = [
